@@ -40,7 +40,8 @@ class BackendHarness:
     horizon = 3000
 
     def __init__(self, runtime, ct, method="GET", warm=False, short_writes=False, uds=False, timeouts="all", consume="request",
-                 body="bytes", early=False, payload=7):
+                 body="bytes", early=False, payload=7, retries=0):
+        self.retries = retries        # connection retries of the pool (C20: establishment failures of the real backends are retried)
         self.consume = consume        # "request" | "close-mid-body" (close-delimited response, pool closed after the first chunk, iteration continues)
         self.body = body              # "bytes" | "iter" (chunked upload on HTTP/1.1)
         self.early = early            # the server answers as soon as it has the request head
@@ -84,6 +85,8 @@ class BackendHarness:
         fakeos.CURRENT[0] = w.backend
         del fakeos._SCOPES[:]
         kw = {"uds": "/run/sock"} if self.uds else {}
+        if self.retries:
+            kw["retries"] = self.retries
         pool = scen.make_pool(ct, self._backend(), self.variant, max_connections=2, **kw)
         w.roots.append(pool)
         cfg = self._cfg()
@@ -248,6 +251,16 @@ class BackendHarness:
             if got != log["payload"]:
                 prop = "C13" if scen.CONN_TYPES[self.ct]["proto"] == "h2" else "C03"
                 viol(prop, "upload-body", f"the server decoded an upload of {None if got is None else len(got)} bytes {got[:40] if got else got!r}, the caller sent {len(log['payload'])} bytes {log['payload'][:40]!r}")
+        # ---- C20: a failure of the TCP / TLS stage is a connect error or connect timeout, whatever the runtime calls it: retried
+        if self.retries and inj and not scen.CONN_TYPES[self.ct]["proxy"]:
+            fop = ledger[inj[0][0]].kind
+            if fop.startswith("connect") or fop == "start_tls":
+                attempts = sum(1 for op in ledger if op.kind.startswith("connect") and b"after" not in str(op.args).encode())
+                if vic[0] != "ok":
+                    viol("C20", "not-retried", f"{inj[0][1]} at the OS-level {fop} with retries={self.retries}: the request failed with "
+                         f"{exc_class(vic[1]) if vic[0] == 'exc' else vic} instead of being retried ({attempts} connection attempts, pauses {w.net.sleeps})")
+                elif w.net.sleeps[:1] != [0]:
+                    viol("C20", "backoff", f"retry after {inj[0][1]}@{fop}: pauses {w.net.sleeps}, expected [0]")
         fu = log.get("followup")
         if fu is not None and not (fu[0] == "ok" and fu[1] == 200 and fu[2] == b"<after>"):
             viol("C01", "followup", f"the request that followed gave {fu[0]}:{exc_class(fu[1]) if fu[0] == 'exc' else fu[1:]}")
@@ -313,6 +326,10 @@ def specs(tier, purpose="all"):
         # the send loop of the sync backend under short writes (with one fault on top)
         for ct in (["h11", "h11tls", "h2pk"] if quick else ["h11", "h11tls", "h2pk", "h2alpn", "tunnel", "tunnel-s", "socks"]):
             out.append((2, make_spec(MOD, "BackendHarness", runtime="sync", ct=ct, method="POST", short_writes=True, payload=23)))
+    if purpose == "retries":
+        for rt in RUNTIMES:
+            for ct in ("h11", "h11tls", "h2alpn"):
+                out.append((1, make_spec(MOD, "BackendHarness", runtime=rt, ct=ct, method="GET", retries=1)))
     if purpose in ("all", "early"):
         # a streamed upload answered early, one failure anywhere, then a follow-up request on the same pool
         for rt in RUNTIMES:
